@@ -120,6 +120,15 @@ package store
 //@
 //@ # changeHandler: which event announces a store mutation must agree with what get serves:
 //@ # a resource without a stored value is still served when a default value is configured
+//@ # ---- registration: what getResource and changeHandler rely on (the service, the pattern, a Model/Collection type and a
+//@ # default of the matching JSON shape) is established by onRegister, or the registration panics and sets nothing
+//@ func (o *storeHandler) onRegister(s *res.Service, p res.Pattern, h res.Handler)
+//@   requires o != nil
+//@   modifies store.storeHandler.s, store.storeHandler.p, store.storeHandler.typ
+//@   may_panic
+//@   ensures set: o.s == s && same(o.p, p) && o.typ == h.Type && (o.typ == 1 || o.typ == 2)
+//@   ensures default.shape: imp(len(o.def) > 0, o.def[0] == ite(o.typ == 1, '{', '['))
+//@   ensures_on_panic nothing.set: o.s == old(o.s) && o.typ == old(o.typ) && same(o.p, old(o.p))
 //@ # ---- get: what a fresh get serves (the representation changeHandler diffs against)
 //@ # gresp: responses given to the get request; gkind: the last one (1 model, 2 collection, 3 error, 4 not found); gval: the value served
 //@ # rtopen: read transactions open; rtval / trout: what the transaction and the transformer returned last
@@ -218,6 +227,22 @@ package store
 //@   callback t idCB
 //@   ensures in.place: imp(isNil(err), same(out, evs))
 //@   loop 1 invariant -1 <= rangeindex && rangeindex < len(evs) + 0
+//@ func (t IDToRIDModelTransformer) TransformResult(v interface{}) (out interface{}, err error)
+//@   requires t != nil
+//@   requires small: imp(typeIs(v, "[]string"), 0 <= len(unbox(v, "[]string")) && len(unbox(v, "[]string")) <= 1073741824)
+//@   modifies alloc, map:map[string]res.Ref
+//@   callback t idCB
+//@   ensures kind: isNil(err) == typeIs(v, "[]string")
+//@   ensures model: imp(isNil(err), typeIs(out, "map[string]res.Ref"))
+//@   loop 1 invariant -1 <= rangeindex && rangeindex < len(ids) + 0 && refs != nil
+//@ func (t IDToRIDModelTransformer) TransformEvents(evs []ResultEvent) (out []ResultEvent, err error)
+//@   requires t != nil && len(evs) <= 1073741824
+//@   modifies alloc, map:map[string]interface{}
+//@   callback t idCB
+//@   # no events stay no events; otherwise the adds and removes are folded into one change event
+//@   ensures none: imp(len(evs) == 0, same(out, evs) && isNil(err))
+//@   ensures one: imp(len(evs) > 0 && isNil(err), len(out) == 1 && out[0].Name == "change")
+//@   loop 1 invariant -1 <= rangeindex && rangeindex < len(evs) + 0 && ch != nil
 //@ # ---- get on the query handler: exactly one response (or a panic, answered by the request machinery), and the value
 //@ # served is the result of the query store for the query the request handler returned
 //@ trusted func (r res.GetRequest) ParseQuery() (q url.Values)
